@@ -7,7 +7,7 @@ FINISH = dict(level="model_checking",
                    "restore, freelocale; each failure exit) for every initial global/thread locale: locale restored, no "
                    "locale object leaked, body under C numeric (3 mutant switches caught); V: a synthesised comma-decimal "
                    "locale installed globally and per thread x (19 parser outcome cases + generated documents whose numbers take "
-                   "every printf shape, quick 40 / thorough 300) x one call and 3 chunkings x injected duplocale/newlocale "
+                   "every printf shape, quick 40 / thorough 2000) x one call and 3 chunkings x injected duplocale/newlocale "
                    "failures + serialization of generated doubles under 5 flag sets and 3 configured formats; TLC checks "
                    "handle identity and printf probe after every call, leaks, and equality with the C-locale run (the libc "
                    "call path is recorded, not judged: the property does not prescribe it)")
@@ -45,7 +45,7 @@ def run(ck):
     exe = vlib.build("san", vlib.harness_sources(), "vh")
     locdir = make_locale()
     tp = os.path.join(ck.dir, "v.ndjson")
-    deaths = vlib.run_executions(exe, lambda st: ["c14", "drive", 300 if ck.tier == "thorough" else 40], 1, tp, timeout=600, env={"LOCPATH": locdir,
+    deaths = vlib.run_executions(exe, lambda st: ["c14", "drive", 2000 if ck.tier == "thorough" else 40], 1, tp, timeout=600, env={"LOCPATH": locdir,
                                         # glibc's own locale loading leaves allocations at exit; json-c's locale objects are counted by the wrappers
                                         "ASAN_OPTIONS": "detect_leaks=0:abort_on_error=0:exitcode=99:allocator_may_return_null=1"})
     vlib.conformance(ck, "V:locales-x-outcome-classes", "TraceLocale", "trace.cfg", tp, deaths, diag_of, min_events=100, timeout=900)
